@@ -233,13 +233,17 @@ def normalise(u, sig, spelled=True):
         implied_and_required(u, t, req)
     implied_and_required(u, sig["ret"], req)
     if sig["self"] and sig["self"] != "_anon" and sig["impl_lts"]:
-        req.append((sig["impl_lts"][0], sig["self"], "ref"))
+        # `&'a self` with Self = OpA<'x> implies 'x: 'a. It cannot be restated on the method (it would need a where-clause on an
+        # impl lifetime) and validation does not ask for it: the tool has to derive it on its own.
+        req.append((sig["impl_lts"][0], sig["self"], "self"))
     declared = list(sig["declared"])
     if spelled:
         # definition-site bounds must be restated; reference-implied bounds are restated as well because validation looks at the
         # method's *direct* bound list (a bound that only follows transitively from declared ones is still demanded) -- that
         # strictness is not part of this property, so the generator satisfies it
         for lo, sh, kind in req:
+            if kind == "self":
+                continue
             if lo != sh and lo != "static" and sh != "static" and (lo, sh) not in declared:
                 declared.append((lo, sh))
     sig = dict(sig)
